@@ -45,7 +45,7 @@ type jwkServer struct {
 	mu     sync.Mutex
 	keys   map[string]*rsa.PrivateKey // published kid -> key
 	srv    *httptest.Server
-	broken string // "" | "garbage" | "500" | "badkey": what the endpoint answers instead of the key set
+	broken string // "" | "garbage" | "500" | "badkey" | "503json" | "404json": what the endpoint answers instead of the key set
 	slow   time.Duration // answer only after this long (or when the client has gone away)
 	inflight int32
 }
@@ -73,6 +73,16 @@ func (s *jwkServer) handler(w http.ResponseWriter, r *http.Request) {
 	case "500":
 		w.WriteHeader(500)
 		_, _ = w.Write([]byte("upstream unavailable"))
+		return
+	case "503json", "404json":
+		// an error answered in JSON (an API gateway's error page): decodable, but not a publication of a key set
+		w.Header().Set("Content-Type", "application/json")
+		if s.broken == "503json" {
+			w.WriteHeader(503)
+		} else {
+			w.WriteHeader(404)
+		}
+		_, _ = w.Write([]byte(`{"error":"service unavailable","keys":[]}`))
 		return
 	case "badkey":
 		_, _ = w.Write([]byte(`{"keys":[{"kty":"RSA","kid":"k0","n":"!!!","e":"AQAB"}]}`))
@@ -408,7 +418,7 @@ func runC15(c *Ctx) {
 		case 30, 31:
 			// a refresh that fails (endpoint down, garbage, undecodable key) must leave the installed keys alone
 			js.mu.Lock()
-			js.broken = []string{"garbage", "500", "badkey"}[r.Intn(3)]
+			js.broken = []string{"garbage", "500", "badkey", "503json", "404json"}[r.Intn(5)]
 			js.mu.Unlock()
 			ferr := jwthook.VerifUpdateKeys(h)
 			js.mu.Lock()
